@@ -1,13 +1,20 @@
 #!/bin/bash
-# Maintainer tool: for every kept seeded change that has no suite confirmation yet, apply it in its
-# scratch worktree, run the repository's whole test-suite there, record the result in meta.json.
-for d in /verif/seeded/*/; do
-  name=$(basename $d); id=${name%%-*}; wt=/tmp/wt/$id; case "$name" in *-2A-*|*-2B-*) wt=/tmp/wt2/$id;; *-3A-*|*-3B-*) wt=/tmp/wt3/$id;; esac
-  grep -q '"suite_confirmed"' $d/meta.json && continue
-  [ -d $wt ] || { echo "$name: no worktree"; continue; }
-  cd $wt && git checkout -q -- . && git apply $d/patch.diff || { echo "$name: patch does not apply"; continue; }
-  out=$(PYTHONPATH=$wt/src /venv/bin/python -m pytest -q -rf -p no:cacheprovider --timeout=900 -n ${NPROC:-8} src/grid/tests 2>&1 | grep -E "^FAILED|passed|failed" | tail -4 | tr "\n" " ")
-  git checkout -q -- .
+# Maintainer tool: for every kept seeded change that has no suite confirmation yet, apply it in a
+# scratch worktree of its own (/tmp/wtc/s<slot>, at /repo's HEAD), run the repository's whole
+# test-suite there, record the result in meta.json.   usage: confirm_seeds.sh <slot> <nslots> [name-pattern]
+slot=${1:-0}; nslots=${2:-1}; pat=${3:-}
+wt=/tmp/wtc/s$slot
+[ -d $wt ] || git -C /repo worktree add -q --detach $wt HEAD
+i=0
+for d in $(ls -d /verif/seeded/*/ | sort -r); do
+  name=$(basename $d)
+  grep -q '"suite_confirmed":' $d/meta.json && continue
+  [ -n "$pat" ] && [[ "$name" != $pat ]] && continue
+  i=$((i+1)); [ $((i % nslots)) -eq $slot ] || continue
+  cd $wt && git checkout -q -- . && git clean -qfd src && git apply $d/patch.diff || { echo "$name: patch does not apply to HEAD"; continue; }
+  out=$(PYTHONPATH=$wt/src /venv/bin/python -m pytest -q -rf -p no:cacheprovider --timeout=2400 -n ${NPROC:-6} src/grid/tests 2>&1 | grep -E "^FAILED|passed|failed" | tail -4 | tr "\n" " ")
+  git checkout -q -- . ; git clean -qfd src
+  grep -q '"suite_confirmed":' $d/meta.json && continue
   /venv/bin/python - "$d/meta.json" "$out" <<'PY'
 import json, sys
 p, out = sys.argv[1], sys.argv[2]
